@@ -116,6 +116,8 @@ type Contracts struct {
 	Extensions    []*FuncContract   // `extend func`: clauses merged into the base contract
 	AllMethods    []AllMethodsDecl  // every method of a type must be under contract for a property
 	RefWalks      []RefWalkDecl     // a traversal must read every field that can hold a reference
+	PropertyScope map[string][]string // property -> properties whose scoped clauses also apply to it
+	PropertyClasses map[string][]string // property -> the obligation classes it consists of (default: all)
 	MapNonNil     map[string]bool   // "pkgpath::global": map whose stored values are non-nil
 }
 
@@ -163,7 +165,7 @@ func newContracts() *Contracts {
 // their package's (e.g. per-call error objects are not part of the shared document).
 var classOverride = map[string]string{}
 
-var declKeywords = map[string]bool{"refwalk": true, "walkcomplete": true, "onlycalledby": true, "default-frame": true, "extend": true, "allmethods": true, "global": true, "guarded": true, "class": true, "func": true, "iface": true, "fnfield": true, "pred": true, "spec": true, "axiom": true,
+var declKeywords = map[string]bool{"propertyclasses": true, "propertyscope": true, "refwalk": true, "walkcomplete": true, "onlycalledby": true, "default-frame": true, "extend": true, "allmethods": true, "global": true, "guarded": true, "class": true, "func": true, "iface": true, "fnfield": true, "pred": true, "spec": true, "axiom": true,
 	"lemma": true, "ghost": true, "generate": true, "trusted": true}
 var clauseKeywords = map[string]bool{"requires": true, "ensures": true, "modifies": true, "panics_if": true, "loop": true,
 	"tag": true, "pure": true, "records": true, "preserves": true, "defines": true, "assuming": true, "secret": true, "untainted": true, "returns-untainted": true, "fresh": true, "reads": true, "option": true, "nosafety": true}
@@ -486,6 +488,26 @@ func (cs *Contracts) loadContractText(text, path, pkgPath string) error {
 				return fail("expected: walkcomplete @PROP <root> <method>")
 			}
 			cs.WalkComplete = append(cs.WalkComplete, WalkCompleteDecl{Pkg: pkgPath, Root: f[1], Method: f[2], Tags: []string{f[0][1:]}})
+		case "propertyclasses":
+			cur = nil
+			f := strings.Fields(rest)
+			if len(f) < 2 {
+				return fail("expected: propertyclasses <PROP> <class>...")
+			}
+			if cs.PropertyClasses == nil {
+				cs.PropertyClasses = map[string][]string{}
+			}
+			cs.PropertyClasses[f[0]] = append(cs.PropertyClasses[f[0]], f[1:]...)
+		case "propertyscope":
+			cur = nil
+			f := strings.Fields(rest)
+			if len(f) < 2 {
+				return fail("expected: propertyscope <PROP> <PROP>...")
+			}
+			if cs.PropertyScope == nil {
+				cs.PropertyScope = map[string][]string{}
+			}
+			cs.PropertyScope[f[0]] = append(cs.PropertyScope[f[0]], f[1:]...)
 		case "refwalk":
 			cur = nil
 			// refwalk @C16 <root function> : SchemaRef, ParameterRef, ...
